@@ -153,7 +153,8 @@ def run(tier):
                  "  if (n == 1) {\n    var b = c + 1;\n    var c = 1;\n  } else {\n    var d = e + 2;\n    var e = 2;\n  }\n  return n;\n",
                  "  for (var i = 0; i < 2; i++) {\n    if (m == i) {\n      var u = w;\n      var w = 1;\n    }\n    var x = y;\n    var y = 2;\n  }\n  return n;\n"):
         projs.append([{"path": "ubd.circom", "named": True, "text": HEAD + "function f(n, m) {\n" + body + "}\n"}])
-    jobs = [(pi, k) for pi in range(len(projs)) for k in range(K)]
+    # the small definitions with two candidate errors are run more often: a choice that depends on a hash order shows up rarely
+    jobs = [(pi, k) for pi in range(len(projs)) for k in range(24 if projs[pi][0]["path"] == "ubd.circom" else K)]
 
     def one(job):
         pi, k = job
@@ -174,7 +175,7 @@ def run(tier):
     for pi, outs in byproj.items():
         names = sorted(set(k for o in outs for k in o))
         records.append({"defs": names, "variants": [{n: o.get(n, []) for n in names} for o in outs]})
-        meta.append({"part": "A", "files": projs[pi], "runs": K})
+        meta.append({"part": "A", "files": projs[pi], "runs": len(outs)})
     # validate with TLC
     tpath = os.path.join(wd, "trace.ndjson")
     rej, states = [], 0
